@@ -281,7 +281,7 @@ def check_loss(ctx: Ctx, case):
                     loss.compute_loss(sim[:, : sim.shape[1] - k].copy(), real[: real.shape[0] - k].copy())
                 except Exception:  # noqa: BLE001 - only the second evaluation is judged here
                     pass
-            got = loss.compute_loss(sim.copy(), real.copy())
+            got = loss.compute_loss(lg.kcopy(sim), lg.kcopy(real))
     if agree(got, ref, scale):
         return
     if kind == "gsl" and not agree(ref_packed, ref, scale) and agree(got, ref_packed, scale):
@@ -302,11 +302,11 @@ def ref_moments(x):
     """(values, kinds) with kinds: 'lin' (compare directly), 'cube', 'fourth' (compare untransformed)."""
     def four(v):
         n = len(v)
-        mu = sum(v) / n
+        mu = math.fsum(v) / n
         dv = [a - mu for a in v]
-        m2 = sum(a * a for a in dv) / n
-        m3 = sum(a ** 3 for a in dv) / n
-        m4 = sum(a ** 4 for a in dv) / n
+        m2 = math.fsum(a * a for a in dv) / n
+        m3 = math.fsum(a ** 3 for a in dv) / n
+        m4 = math.fsum(a ** 4 for a in dv) / n
         if m2 == 0:
             return mu, 0.0, None, None, [None] * 5
         sk, ku = m3 / m2 ** 1.5, m4 / (m2 * m2) - 3.0
@@ -355,6 +355,11 @@ def check_moments(ctx: Ctx, case):
         if r is None:  # undefined (zero variance): the summary must report 0
             ok = g == 0.0
             r = 0.0
+        elif kind == "lin" and j % 9 == 1:
+            # a standard deviation: accurate relative to itself as long as the series is not excluded as nearly constant
+            # (two-pass evaluation: relative error ~ eps * max|s| / sd <= 1e-10)
+            ms = float(np.max(np.abs(x if j < 9 else np.array(ad))))
+            ok = abs(g - r) <= 1e-7 * r + 1e-13 * ms
         elif kind == "lin":
             ok = abs(g - r) <= TOL * (1 + mx)
         elif kind == "cube":
